@@ -8,7 +8,10 @@ C16 — model of the catchment / grid intersection and of the Voronoi weights:
   lower-left corner / row and column range of the sub-grid, scatter of the weights into the sub-grid array and
   the parent row/column bookkeeping;
 * `c_voronoi` / `grid.voronoi`: nearest point per catchment cell (first arg-min, strict `<`), counts, division
-  by the number of cells. The distance function is a parameter (`sqrt(dx*dx+dy*dy)` in the driver).
+  by the number of cells. The distance function is a parameter (`sqrt(dx*dx+dy*dy)` in the driver);
+* the glue of the wrappers that decides the answer: `filled` selects the cell list, a catchment that is not
+  delineated (`None` lists), `np.atleast_2d` and the two-column assert on the points argument, the kernel's
+  guards `npoints < 1`, `nrows < 1 || ncols < 1` — error values by name (`Err`).
 
 No Mathlib. Everything is total and computable; the driver runs these definitions at `Float` (IEEE double,
 operation order of the C code) and at `Rat` (exact). Grid geometry is imported from `Model/C07.lean`.
